@@ -45,8 +45,23 @@ class _Timeout(BaseException):
     pass
 
 
+_ARMED = [False]
+
+
 def _alarm(signum, frame):
-    raise _Timeout()
+    if _ARMED[0]:
+        raise _Timeout()
+
+
+def _arm(seconds):
+    # repeating: a _Timeout raised inside a gc callback / __del__ is swallowed by the interpreter, the next tick gets through
+    _ARMED[0] = True
+    signal.setitimer(signal.ITIMER_REAL, seconds, 0.5)
+
+
+def _disarm():
+    _ARMED[0] = False
+    signal.setitimer(signal.ITIMER_REAL, 0)
 
 
 def skeleton_violation(fl):
@@ -139,33 +154,52 @@ def build_input(case):
     return case["text"]
 
 
+_NONTERM = [0]
+
+
 def check_case(case, budget=None):
     inp = build_input(case)
     builder, ns, ft = case.get("builder", "dom"), case.get("namespace", True), case.get("full_tree", False)
     container, scripting = case.get("container"), bool(case.get("scripting"))
     size = len(inp)
-    budget = budget or int(6 + size / 100.0)
+    budget = budget or int(5 + size / 500.0)
     fam = case.get("family")
     taglike = isinstance(inp, str) and "<" in inp or isinstance(inp, bytes) and b"<" in inp
     signal.signal(signal.SIGALRM, _alarm)
-    signal.alarm(budget)
+    if _NONTERM[0] >= 1:
+        # this process has already proved non-termination once: from now on count dispatches first, so that a tree with a
+        # common livelock costs milliseconds per case instead of one watchdog period each (the verdict is the same, deterministic one)
+        limit = 200 * (size + 50)
+        _arm(max(60, 4 * budget))
+        try:
+            try:
+                h5.parse_bounded(inp, limit, builder=builder, namespace=ns, scripting=scripting, container=container, full_tree=ft)
+            finally:
+                _disarm()
+        except h5.DispatchLimit as e:
+            return Verdict("fail", "non-termination: the tree constructor dispatched more than %d times for %d input characters (%s); input %s container=%r"
+                           % (limit, size, short(str(e), 200), short(inp, 200), container), "non-termination", nontrivial=True)
+        except (_Timeout, Exception):
+            pass
+    _arm(budget)
     try:
         try:
             kw = {}
             r, p = h5.parse(inp, builder=builder, namespace=ns, scripting=scripting, container=container, full_tree=ft, **kw)
             fl = obs.flat(r)
         finally:
-            signal.alarm(0)
+            _disarm()
     except _Timeout:
         # a time budget is not an oracle: decide by counting dispatches instead (deterministic)
         limit = 200 * (size + 50)
-        signal.alarm(max(60, 4 * budget))
+        _arm(max(60, 4 * budget))
         try:
             try:
                 h5.parse_bounded(inp, limit, builder=builder, namespace=ns, scripting=scripting, container=container, full_tree=ft)
             finally:
-                signal.alarm(0)
+                _disarm()
         except h5.DispatchLimit as e:
+            _NONTERM[0] += 1
             return Verdict("fail", "non-termination: the tree constructor dispatched more than %d times for %d input characters (%s); input %s container=%r"
                            % (limit, size, short(str(e), 200), short(inp, 200), container), "non-termination", nontrivial=True)
         except _Timeout:
